@@ -40,6 +40,11 @@ impl Command for CommandImpl {
                                 format!("Min value: {} bigger than max value: {}", min, max)
                                     .to_string(),
                             )
+                        } else if min == max {
+                            CommandResult::Error(
+                                format!("Empty range, min value: {} equals max value: {}", min, max)
+                                    .to_string(),
+                            )
                         } else {
                             let mut rng_inst = rng();
 
